@@ -174,6 +174,16 @@ func cidFor(key string) cid.Cid {
 }
 
 // Cid returns the i-th named atom CID (same i, same CID).
+// AlterKeyY returns a copy of an uncompressed secp256k1 public key (04 ‖ X ‖ Y) with one bit of Y flipped that is
+// not its parity bit: no longer a curve point, same X, same parity.
+func AlterKeyY(key []byte) []byte {
+	c := append([]byte{}, key...)
+	if len(c) == 65 {
+		c[40] ^= 0x10
+	}
+	return c
+}
+
 func Cid(i int) cid.Cid { return cidFor(fmt.Sprintf("c%d", i)) }
 
 // FreshCid returns a CID distinct from every other one handed out.
